@@ -78,18 +78,17 @@ Proof. destruct w; cbn [fits]; intro H; apply N.ltb_lt in H; lia. Qed.
 Lemma head_call h : hmeth_ok h = true -> run_call (CHead h) = Some (run_hmeth h) /\ flat (run_hmeth h) = hmeth_head h.
 Proof. intro H. cbn [run_call]. rewrite H. split; [reflexivity|now apply hmethods_preferred]. Qed.
 
-Lemma meth_call m : arg_ok m = true -> simple_unassigned m = false ->
+Lemma meth_call m : arg_ok m = true -> simple_reserved m = false ->
   exists cs, run_call (CMeth m) = Some cs /\ flat cs = enc_pref (item_of m).
 Proof.
   intros Hok Hs. cbn [run_call]. rewrite Hok.
-  destruct (run_meth m) as [cs|] eqn:E.
-  - exists cs. split; [reflexivity|]. now apply methods_preferred.
-  - apply (methods_refuse m Hok) in E. congruence.
+  destruct (run_meth_some m) as (cs & E). rewrite E.
+  exists cs. split; [reflexivity|]. now apply methods_preferred.
 Qed.
 
 Lemma chunks_write (mk : bytes -> meth) (mt : N) cs :
   (forall b, item_of (mk b) = (if mt =? 2 then IBytes b else IText b)) ->
-  (forall b, simple_unassigned (mk b) = false) ->
+  (forall b, simple_reserved (mk b) = false) ->
   Forall (fun c => arg_ok (mk (snd c)) = true /\ chunk_pref c = true) cs -> (mt = 2 \/ mt = 3) ->
   writes (map (fun c => CMeth (mk (snd c))) cs) (flat_map (ser_chunk mt) cs).
 Proof.
